@@ -15,9 +15,17 @@ bank sends to the custody account, outside funding and liquidation seizures):
    plus the vaults currently awaiting auction settlement"                                          → `C01.totals_eq`
 * a rejected message changes nothing                                                               → `C01.rejected_no_change`
 
-Scope of the model (Model/Vault.lean): the eleven vault messages, `donate`, `fund`, and the liquidationsV2 seizure
-hand-over. Auction *settlement* (which later reduces the totals) is the subject of C10's model; the correspondence
-harness checks the totals clause on the real chain state across real liquidations and bids.
+* the same clauses when the product configuration CHANGES between messages (`WasmUpdatePairsVault`, asset proposals)
+                                                      → `C01.invL_always_reconfig`, `C01.ledger_eq_reconfig` (via `C01.apply_invL`)
+* D13 (second-generation settlement): `C01.totals_after_settlement`, `C01.totals_eq_settlement_counterexample`
+* D29 (emergency redemption of a stable-mint vault): `C01.custody_after_esm_stable`, `C01.esm_stable_counterexample`
+* first-generation wind-down that re-creates a vault: `C01.wind_down_return_keeps_ledger`
+* D35 (auctionsV2 `TriggerEsm`: second-generation auction that runs out under shutdown): `C01.trigger_esm_effect`,
+  `C01.trigger_esm_counterexample`
+
+Scope of the model (Model/Vault.lean): the eleven vault messages, `donate`, `fund`, the seizure hand-over of both liquidation
+generations, the vault-side bookkeeping of both generations' auction closes, the emergency-shutdown steps of x/esm and of both
+auction generations. See notes/C01.md.
 -/
 namespace Comdex.C01
 open Comdex Comdex.Vault
